@@ -31,9 +31,6 @@ def classify(monitor, item, spec, res):
     cfg = spec["cfg"]
     if substring_ids(spec):
         return monitor + ":worker-id-substring-of-another"
-    if cfg.get("max_tries") is not None and int(cfg["max_tries"]) == 0 and monitor in ("overlap", "count"):
-        # the back-off budget is test_timeout * max_tries = 0: the emergency re-entry opens after the first back-off
-        return monitor + ":max_tries=0"
     feats = []
     cls = None
     parts = item.split("/")
@@ -155,11 +152,13 @@ def family_run(ctx, monitors, n_cases, profiles=PROFILES, procs=14, corpus=None,
             if f.endswith(".json"):
                 os.chdir(scratch)
                 results.append(_run_spec(json.load(open(os.path.join(corpus, f)))["spec"], monitors, ("corpus", f, "")))
+    import travparsed
+    if n_parsed:
+        n_parsed = max(n_parsed, len(travparsed.SELECTIONS))     # every shipped-suite selection at least once per run
     pjobs = [(ctx.seed + seed_offset, i, monitors, scratch) for i in range(n_parsed)]
     # lazily parsed runs: the selections rotate with the seed
     # (the mixed-set selection is expanded lazily in every run: one node must serve both of its roles)
-    import travparsed
-    lazy_idx = ([travparsed.MIXED_SETS] if n_lazyparsed else []) + \
+    lazy_idx = ([travparsed.MIXED_SETS, travparsed.RESTRICTED_WORKER] if n_lazyparsed else []) + \
                [5 * (ctx.seed + seed_offset) + 3 * i for i in range(max(0, n_lazyparsed - 1))]
     pjobs += [(ctx.seed + seed_offset, i, monitors, scratch, True) for i in lazy_idx]
     with multiprocessing.get_context("fork").Pool(procs) as pool:
@@ -213,6 +212,9 @@ def judge(ctx, results, monitors, label="trav"):
             ctx.disagree(f"trace#{r['ident']}:block{r['disagree']['block']}", {"spec": spec, "ident": list(r["ident"])},
                          r["disagree"]["model"], r["disagree"]["impl"])
         if "owner" in monitors:
+            for what in r.get("excluded_runs", [])[:3]:
+                ctx.violate("owner:excluded-by-worker-restriction", what,
+                            {"kind": label, "spec": spec, "monitor": "owner", "item": what})
             for what in r.get("foreign_sessions", [])[:2]:
                 ctx.violate("owner:session-of-another-worker" if not substring_ids(spec) else
                             "owner:worker-id-substring-of-another", what,
